@@ -147,6 +147,18 @@ CHECKS["C20"] = (MC,
     "against the real handlers; after every request the status class and every file of the server directory are compared with the model.",
     "Trusted: stub jupyter_server/jinja2 (no auth/XSRF); IOLoop.stop interception; content ids by byte/JSON comparison.", "DESIGN.md §5 C20")
 
+CHECKS["C14"] = (MC,
+    "TLC enumeration of IgnoreMatrix.tla (ignored x differing x channel with derived expectations) executed through the real channels "
+    "(flags via the nbdiff parser, Ignore mappings / key lists / split over sections and directories / ignorable booleans via "
+    "ConfigBackedParser) in pristine interpreters; TLC trace validation (DiffTrace.tla: NoIgnoredPath, masked RoundTrip, IgnoredOnlyEmpty "
+    "with NbPaths.tla categories and Mask)",
+    "The six categories are a TLA+ path vocabulary (NbPaths) with a Mask operator; the case matrix is enumerated by TLC; every case "
+    "builds a pair differing in exactly the chosen categories at every level where the category exists and diffs it under the real "
+    "configuration channel; TLC checks that no diff entry lies on an ignored path, that the specification's Patch reproduces the target "
+    "in every non-ignored part, and that differences confined to ignored non-source categories give an empty diff.",
+    "Trusted: harness/c14.vary changes exactly the stated categories; NbPaths transcribes the documented meaning of the six options.",
+    "DESIGN.md §5 C14")
+
 NOT_YET = {}
 
 PROPS = [json.loads(l)["id"] for l in open(os.path.join(VERIF, "properties.jsonl"))]
